@@ -6,4 +6,4 @@ Require Import ExtrOcamlBasic ExtrOcamlString.
 Extraction Language OCaml.
 Extraction "../ocaml/c15/model.ml" info_empty step payload_check find_table tablet_for_token
   replicas_for_token dc_replicas_for_token token_new spec_step spec_entry spec_lookup spec_lookup_dc
-  restrict_dc spec_present_step spec_present ranges_okb op_i64b refresh_op parse_payload step_bytes learn_of_bytes.
+  restrict_dc spec_present_step spec_present ranges_okb op_i64b refresh_op parse_payload step_bytes learn_of_bytes enc_payload payload_check.
